@@ -199,6 +199,36 @@ func (g *dbGen) blockRead(tx string) {
 		id = g.blocks[r.Intn(len(g.blocks))]
 	}
 	n := g.blkLen[id]
+	if len(g.blocks) > 1 && r.Chance(1, 6) {
+		// bulk paths
+		var parts []string
+		for k := 1 + r.Intn(4); k > 0; k-- {
+			b := g.blocks[r.Intn(len(g.blocks))]
+			if r.Chance(1, 12) {
+				b = g.nextBlk
+			}
+			if r.Bool() {
+				parts = append(parts, fmt.Sprintf("%d", b))
+			} else {
+				bl := g.blkLen[b]
+				parts = append(parts, fmt.Sprintf("%d/%d/%d", b, r.Intn(bl+1), r.Intn(bl+3)))
+			}
+		}
+		if strings.Contains(parts[0], "/") {
+			for i := range parts {
+				if !strings.Contains(parts[i], "/") {
+					parts[i] += "/0/1"
+				}
+			}
+			g.add("frs:%s:%s", tx, strings.Join(parts, "+"))
+		} else {
+			for i := range parts {
+				parts[i] = strings.Split(parts[i], "/")[0]
+			}
+			g.add("fks:%s:%s", tx, strings.Join(parts, "+"))
+		}
+		return
+	}
 	switch r.Intn(6) {
 	case 0:
 		g.add("hb:%s:%d", tx, id)
